@@ -56,7 +56,7 @@ let omove_str = function Some m -> move_str m | None -> "-"
 let obs_of (zt : ztable) (h : heap) (b : board) (ok : bool) : string list =
   let p = b_position h b in
   [ b01 ok; pos_str p; string_of_int (int_of_n b.b_turn); norm_hex (hex_of_n (b_hash h b));
-    string_of_int (int_of_n (b_noprogress h b)); string_of_int (int_of_z b.b_ply); string_of_int (int_of_z b.b_moves);
+    dec_of_n (b_noprogress h b); string_of_int (int_of_z b.b_ply); string_of_int (int_of_z b.b_moves);
     b01 b.b_castled_w; b01 b.b_castled_b; string_of_int (int_of_n b.b_result.outcome); string_of_int (reason_code b.b_result.rreason);
     omove_str (last_move h b); omove_str (second_to_last_move h b);
     norm_hex (hex_of_n (has_moved h b (z_of_int 3))); norm_hex (hex_of_n (has_moved h b (z_of_int 1000)));
@@ -88,11 +88,11 @@ let handle_bscript line args obs =
     let legal_start = wf_b p0 t0 in
     bump (if legal_start then "bscript/legal-start" else "bscript/other-start");
     (* model state *)
-    let (h0, b0) = new_board zt [] p0 t0 (n_of_int (int_of_string np)) (z_of_int (int_of_string fm)) in
+    let (h0, b0) = new_board zt [] p0 t0 (n_of_dec np) (z_of_dec fm) in
     let heap = ref h0 in
     let boards = ref [| b0 |] in
     let sel = ref 0 in
-    let g0 = if legal_start then Some (g_start (abs_pos p0) (color_of t0) (z_of_int (int_of_string np)) (z_of_int (int_of_string fm))) else None in
+    let g0 = if legal_start then Some (g_start (abs_pos p0) (color_of t0) (z_of_dec np) (z_of_dec fm)) else None in
     let sboards = ref [| { g = g0; gstack = []; ostack = []; last_obs = obs_arr.(0) } |] in
     let bad_model = ref false in
     let check_model i (m : string list) =
